@@ -74,6 +74,10 @@ def gen_fault(r):
     f['steps'] = r.choice([1, 1, 3, 10, 50])
   if kind == 'full':
     f = {'kind': 'full', 'db': HOME, 'pages': r.choice([0, 0, 1, 2])}
+  if kind != 'abort' and r.random() < 0.5:
+    # the process survives an engine error; whoever caught the exception may keep it (a notebook's
+    # sys.last_value, a test harness), and with it the failed run's connection
+    f['retain'] = True
   return f
 
 
@@ -153,6 +157,7 @@ def run_history(case, scratch):
     return refs[v]
   last_run = None
   last_result = None
+  worlds = []
   prev_kind = 'start'
   dirty = False       # a stale / tampered / partially written state precedes the next run
   try:
@@ -206,6 +211,8 @@ def run_history(case, scratch):
       for f in faults_:
         info['configured'][f['kind']] += 1
       world = sqlworld.World(faults_)
+      world.retain_connections = any(f.get('retain') for f in faults_)
+      worlds.append(world)
       exc = None
       res = None
       try:
@@ -332,6 +339,10 @@ def run_history(case, scratch):
       last_result = (this, core.canon(sorted_res(res)), core.canon(after))
       dirty = False
   finally:
+    for w_ in worlds:
+      if w_.retained:
+        info['probes']['failed_connection_kept_alive_across_later_runs'] += 1
+      w_.release()
     for f in (dbpath, dbpath + '-journal', srcpath):
       if os.path.exists(f):
         os.remove(f)
@@ -475,7 +486,7 @@ def evidence_meta(tier):
                'logica.py script path / logica.py main() / run_in_terminal path, RunMany(preds), switch to another '
                'of 1-3 versions of the extensional facts, tamper (another client drops a grounded table or replaces '
                'it by garbage), immediate re-run, and runs with an injected fault (abort before statement k, '
-               'interrupt of statement k after n VM steps, disk full, database locked by another connection). '
+               'interrupt of statement k after n VM steps, disk full, database locked by another connection; after such an engine error the failed run\'s connection may stay referenced for the rest of the history, as an exception kept by a notebook would do). '
                'Programs: 3-6 generated predicates, 1-4 of them grounded. Every history with faults also runs as '
                'its fault-free twin; for a subset of histories every abort position 1..8 (thorough: 1..14) of every run is '
                'enumerated (aborted run, same run again, rest of the history). A run is one history. Non-trivial = '
@@ -489,7 +500,7 @@ def evidence_meta(tier):
                    'SQLite on a real file in a per-run scratch directory'],
           'stub': ['sqlite3_logica.SqliteConnect -> fault-injecting, observing proxy around the real connection'],
           'not_run': []},
-      'expected_probes': ['reader_ran_while_stale_copy_of_input_existed', 'abort_between_drop_and_create',
+      'expected_probes': ['failed_connection_kept_alive_across_later_runs', 'reader_ran_while_stale_copy_of_input_existed', 'abort_between_drop_and_create',
                           'requested_predicate_is_itself_grounded', 'immediate_rerun_compared'],
       'assumptions': [
           'reference evaluator lsim/ref.py (bag semantics from docs/learn/logica.md)',
